@@ -23,7 +23,7 @@ package dagsync
 //@   at call setLatestSync#1: assert arg1 == h.peerID && arg2 == c
 
 // Close runs the shutdown sequence exactly once.
-//@ spec func subOK(s val) bool = s != nil && s.closing != nil && s.inEvents != nil && s.addEventChan != nil && s.rmEventChan != nil && s.httpPeerstore != nil && s.handlers != nil && all(k, has(s.handlers, k) ==> s.handlers[k] != nil && s.handlers[k].subscriber == s && str(s.handlers[k].peerID) == k) && !closed(s.addEventChan) && !closed(s.rmEventChan) && s.closing != s.inEvents && (closed(s.inEvents) ==> closed(s.closing)) && s.scopedBlockHook != nil && s.scopedBlockHookMutex != nil && (s.receiver != nil ==> s.watchDone != nil && recvOK(s.receiver) && s.receiver.outChan != s.closing && s.receiver.done != s.closing && s.receiver.done != s.inEvents && (s.receiver.cancelWatch != nil ==> s.receiver.watchDone != nil) && (s.receiver.cancelPubsub != nil ==> s.receiver.topic != nil))
+//@ spec func subOK(s val) bool = s != nil && s.closing != nil && s.inEvents != nil && s.addEventChan != nil && s.rmEventChan != nil && s.httpPeerstore != nil && s.host != nil && s.ipniSync != nil && s.handlers != nil && all(k, has(s.handlers, k) ==> s.handlers[k] != nil && s.handlers[k].subscriber == s && str(s.handlers[k].peerID) == k) && !closed(s.addEventChan) && !closed(s.rmEventChan) && s.closing != s.inEvents && (closed(s.inEvents) ==> closed(s.closing)) && s.scopedBlockHook != nil && s.scopedBlockHookMutex != nil && (s.receiver != nil ==> s.watchDone != nil && recvOK(s.receiver) && s.receiver.outChan != s.closing && s.receiver.done != s.closing && s.receiver.done != s.inEvents && (s.receiver.cancelWatch != nil ==> s.receiver.watchDone != nil) && (s.receiver.cancelPubsub != nil ==> s.receiver.topic != nil))
 
 // No per-publisher mutex is held by the calling thread (API-boundary fact of explicit entry points).
 //@ spec func handlersFree(s val) bool = all(k, has(s.handlers, k) ==> !held(s.handlers[k].syncMutex) && !held(s.handlers[k].asyncMutex))
@@ -138,11 +138,11 @@ package dagsync
 //@   loop 1: invariant segSync != nil && segSync.nextSyncCid != nil && held(h.syncMutex) && !held(h.subscriber.scopedBlockHookMutex) && h.subscriber.scopedBlockHook != nil
 
 //@ func (*handler).makeSyncer
-//@   nobody
-//@   requires h != nil && h.subscriber != nil
+//@   property C01
+//@   requires h != nil && h.subscriber != nil && h.subscriber.httpPeerstore != nil && h.subscriber.host != nil && h.subscriber.ipniSync != nil
 //@   modifies h.syncer
-//@   ensures-assumed result2 == nil ==> result0 != nil && (doUpdate ==> result1 != nil)
-//@   ensures-assumed result2 != nil ==> result0 == nil
+//@   ensures result2 == nil ==> result0 != nil && (doUpdate ==> result1 != nil)
+//@   ensures result2 != nil ==> result0 == nil
 
 //@ func (*Subscriber).getOrCreateHandler
 //@   property C08
